@@ -35,7 +35,7 @@ Print Assumptions C14_no_frame_without_trigger.
     aborted within 11 own steps plus the hook body *)
 Theorem C14_transmit_section_progress : forall s e s' t x,
   step_fn s e = Some s' -> th s t = TTx x -> actor e = Some t -> t_pc x <> SEL ->
-  (forall m v, e <> Mutate t m v) -> (t_pc x = XH -> e <> Lock t) ->
+  (forall m v, e <> Mutate t m v) -> (t_pc x = XHU -> e <> Lock t) ->
   exists x', th s' t = TTx x' /\ tx_rank (t_pc x') < tx_rank (t_pc x).
 Proof. exact own_step_decreases_rank. Qed.
 Print Assumptions C14_transmit_section_progress.
